@@ -167,3 +167,55 @@ func VH_C17_Create() {
 	verifrt.Assert(rec.updated == r0.updated+1 && rec.errors == r0.errors+1 && rec.stateEvents == r0.stateEvents+1 && rec.playerStates == r0.playerStates+1 && rec.reserved == r0.reserved+1 && rec.actions == r0.actions+1 && rec.autoOpenEnd == r0.autoOpenEnd+1 && rec.readyFirst == r0.readyFirst+1, "all eight callbacks wired to the new engine")
 	verifrt.Reach("end")
 }
+
+// VH_C17_Isolation: two real tables created through the manager share no mutable state
+// (verifrt.Disjoint on everything reachable from the two tables), and a membership
+// operation addressed to one of them leaves the other's snapshot exactly as it was —
+// whichever of the two it is addressed to.
+func VH_C17_Isolation() {
+	m := NewManager().(*manager)
+	M := verifrt.Cfg("M")
+	mk := func(id string, players []string) *Table {
+		jps := []JoinPlayer{}
+		for i, p := range players {
+			jps = append(jps, JoinPlayer{PlayerID: p, RedeemChips: 100, Seat: i})
+		}
+		t, err := m.CreateTable(nil, nil, TableSetting{TableID: id, Meta: TableMeta{CompetitionID: "c", TableMaxSeatCount: M, TableMinPlayerCount: 2, Rule: CompetitionRule_Default, Mode: CompetitionMode_CT},
+			Blind: TableBlindState{Level: 1, SB: 10, BB: 20}, JoinPlayers: jps})
+		verifrt.Assert(err == nil && t != nil, "create succeeds")
+		return t
+	}
+	ta := mk("ta", []string{"a0", "a1", "a2"})
+	tb := mk("tb", []string{})
+	tc := mk("tc", []string{"c0", "c1"})
+	verifrt.DropPending()
+	verifrt.Assert(verifrt.Disjoint(ta, tb) && verifrt.Disjoint(ta, tc) && verifrt.Disjoint(tb, tc), "freshly created tables share no mutable state")
+	target := verifrt.Cfg("target") // which table the operation is addressed to (case split: one job per table)
+	tid := []string{"ta", "tb", "tc"}[target]
+	snapA, snapB, snapC := verifrt.Snapshot(ta), verifrt.Snapshot(tb), verifrt.Snapshot(tc)
+	switch verifrt.Cfg("op") {
+	case 0:
+		m.PlayersLeave(tid, []string{vhPick("leaver", []string{"a1", "c0", "a2", "zz"})})
+	case 1:
+		m.PlayerReserve(tid, JoinPlayer{PlayerID: vhPick("joiner", []string{"x0", "a0", "c1"}), RedeemChips: 50, Seat: verifrt.IntRange("seat", -1, M-1)})
+	case 2:
+		m.UpdateTablePlayers(tid, []JoinPlayer{{PlayerID: "x0", RedeemChips: 50, Seat: verifrt.IntRange("seat", -1, M-1)}}, []string{vhPick("leaver", []string{"a1", "c0", "zz"})})
+	case 3:
+		m.PlayerJoin(tid, vhPick("joiner", []string{"a0", "c1", "zz"}))
+	}
+	verifrt.DropPending()
+	ea, _ := m.GetTableEngine("ta")
+	eb, _ := m.GetTableEngine("tb")
+	ec, _ := m.GetTableEngine("tc")
+	if target != 0 {
+		verifrt.Assert(verifrt.SameState(snapA, ea.GetTable()), "an operation on another table leaves table ta exactly as it was")
+	}
+	if target != 1 {
+		verifrt.Assert(verifrt.SameState(snapB, eb.GetTable()), "an operation on another table leaves table tb exactly as it was")
+	}
+	if target != 2 {
+		verifrt.Assert(verifrt.SameState(snapC, ec.GetTable()), "an operation on another table leaves table tc exactly as it was")
+	}
+	verifrt.Assert(verifrt.Disjoint(ea.GetTable(), eb.GetTable()) && verifrt.Disjoint(ea.GetTable(), ec.GetTable()) && verifrt.Disjoint(eb.GetTable(), ec.GetTable()), "tables still share no mutable state afterwards")
+	verifrt.Reach("end")
+}
